@@ -14,6 +14,21 @@ pub struct RefSvd {
 }
 
 pub fn svd_jacobi(a: &DMatrix<f64>) -> RefSvd {
+    // scaled by a power of two close to the largest entry (exact), so that sums of squares of entries of order 1e160 or
+    // 1e-160 neither overflow nor underflow; the singular values are scaled back
+    let mx = a.iter().fold(0.0f64, |m, v| m.max(v.abs()));
+    if mx.is_finite() && mx > 0.0 && !(1e-100..=1e100).contains(&mx) {
+        let scale = 2.0f64.powi(mx.log2().floor() as i32);
+        let mut r = svd_jacobi_unscaled(&a.map(|v| v / scale));
+        for s in r.s.iter_mut() {
+            *s *= scale;
+        }
+        return r;
+    }
+    svd_jacobi_unscaled(a)
+}
+
+fn svd_jacobi_unscaled(a: &DMatrix<f64>) -> RefSvd {
     let n = a.nrows();
     let m = a.ncols();
     let mut w = a.clone();
